@@ -358,3 +358,65 @@ M("C17-benign-canonicalise-earlier", "C17", "src/cppparser/cppPreprocessor.cxx",
   "    _last_c = '\\0';\n\n    // If it was explicitly named on the command-line, mark it S_local.\n    filename.make_canonical();",
   "    filename.make_canonical();\n    _last_c = '\\0';\n\n    // If it was explicitly named on the command-line, mark it S_local.",
   benign=True)
+
+# ---------------------------------------------------------------- C05
+M("C05-destructor-tests-constructor", "C05", "src/interrogatedb/interrogateFunction.I",
+  "is_destructor() const {\n  return (_flags & F_destructor) != 0;", "is_destructor() const {\n  return (_flags & F_constructor) != 0;",
+  expect="R05.1|InterrogateFunction::is_destructor")
+M("C05-ctor-sets-dtor", "C05", "src/interrogate/interrogateBuilder.cxx",
+  "    // This is a constructor.\n    ifunction->_flags |= InterrogateFunction::F_constructor;",
+  "    // This is a constructor.\n    ifunction->_flags |= InterrogateFunction::F_destructor;",
+  expect="R05.2|get_function|F_destructor")
+M("C05-this-on-back", "C05", "src/interrogate/functionRemap.cxx",
+  "    iwrapper._parameters.front()._parameter_flags |=\n      InterrogateFunctionWrapper::PF_is_this;", "    iwrapper._parameters.back()._parameter_flags |=\n      InterrogateFunctionWrapper::PF_is_this;",
+  expect="R05.2|make_wrapper_entry|PF_is_this|on-front")
+M("C05-has-return-polarity", "C05", "src/interrogate/functionRemap.cxx",
+  "  if (!_void_return) {\n    iwrapper._flags |= InterrogateFunctionWrapper::F_has_return;", "  if (_void_return) {\n    iwrapper._flags |= InterrogateFunctionWrapper::F_has_return;",
+  expect="R05.2|make_wrapper_entry|F_has_return")
+M("C05-union-as-struct", "C05", "src/interrogate/interrogateBuilder.cxx",
+  "  case CPPExtensionType::T_union:\n    itype._flags |= InterrogateType::F_union;\n    break;\n\n  default:\n    break;\n  }\n\n  if (cpptype->is_final()) {",
+  "  case CPPExtensionType::T_union:\n    itype._flags |= InterrogateType::F_struct;\n    break;\n\n  default:\n    break;\n  }\n\n  if (cpptype->is_final()) {",
+  expect="R05.2|define_struct_type|F_struct")
+M("C05-label-swapped", "C05", "src/interrogatedb/interrogateElement.cxx",
+  "    if (_flags & F_has_setter) {\n      out << \" has_setter\";", "    if (_flags & F_has_setter) {\n      out << \" has_getter\";",
+  expect="R05.3|InterrogateElement::write|F_has_setter")
+M("C05-flag-bit-clash", "C05", "src/interrogatedb/interrogateFunction.h",
+  "    F_constructor     = 0x0100,", "    F_constructor     = 0x0200,",
+  expect="R05.1|InterrogateFunction::")
+M("C05-benign-reorder-ifs", "C05", "src/interrogate/functionRemap.cxx",
+  "  if (_flags & F_copy_constructor) {\n    iwrapper._flags |= InterrogateFunctionWrapper::F_copy_constructor;\n  }\n\n  if (_flags & F_coerce_constructor) {\n    iwrapper._flags |= InterrogateFunctionWrapper::F_coerce_constructor;\n  }",
+  "  if (_flags & F_coerce_constructor) {\n    iwrapper._flags |= InterrogateFunctionWrapper::F_coerce_constructor;\n  }\n\n  if (_flags & F_copy_constructor) {\n    iwrapper._flags |= InterrogateFunctionWrapper::F_copy_constructor;\n  }",
+  benign=True)
+
+# ---------------------------------------------------------------- C10
+M("C10-destructible-ignores-deleted", "C10", "src/cppparser/cppStructType.cxx",
+  "    if (destructor->_storage_class & CPPInstance::SC_deleted) {\n      // Yes, but it's explicitly been deleted.\n      return false;\n    }\n", "",
+  expect="R10.1|is_destructible|D:destructor")
+M("C10-base-public", "C10", "src/cppparser/cppStructType.cxx",
+  "      if (!base->is_copy_constructible(V_protected)) {", "      if (!base->is_copy_constructible(V_public)) {",
+  expect="R10.1|is_copy_constructible|B")
+M("C10-copy-skips-members", "C10", "src/cppparser/cppStructType.cxx",
+  "    if (!instance->_type->is_copy_constructible()) {\n      return false;\n    }", "    if (!instance->_type->is_copy_constructible()) {\n      continue;\n    }",
+  expect="R10.1|is_copy_constructible|M")
+M("C10-abstract-default-constructible", "C10", "src/cppparser/cppStructType.cxx",
+  "is_default_constructible(CPPVisibility min_vis) const {\n  if (is_abstract()) {\n    return false;\n  }\n", "is_default_constructible(CPPVisibility min_vis) const {\n",
+  expect="R10.1|is_default_constructible|X")
+M("C10-access-flipped", "C10", "src/cppparser/cppStructType.cxx",
+  "    if (destructor->_vis > min_vis) {\n      // Yes, but it's inaccessible.", "    if (destructor->_vis < min_vis) {\n      // Yes, but it's inaccessible.",
+  expect="R10.1|is_destructible|A:destructor")
+M("C10-move-ops-ignored", "C10", "src/cppparser/cppStructType.cxx",
+  "  if (get_move_constructor() != nullptr ||\n      get_move_assignment_operator() != nullptr) {", "  if (get_move_constructor() != nullptr) {",
+  expect="R10.1|is_copy_constructible|MV:move_assignment_operator")
+M("C10-implicit-ctor-unguarded", "C10", "src/interrogate/interrogateBuilder.cxx",
+  "  if (constructor == nullptr && cpptype->is_default_constructible()) {", "  if (constructor == nullptr) {",
+  expect="R10.2|implicit-default-constructor|predicate")
+M("C10-abstract-ctor-registered", "C10", "src/interrogate/interrogateBuilder.cxx",
+  "  if ((ftype->_flags & CPPFunctionType::F_constructor) &&\n      struct_type != nullptr &&\n      struct_type->is_abstract()) {\n    // This is a constructor for an abstract class; forget it.\n    return 0;\n  }\n", "",
+  expect="R10.2|get_function|no-constructor-of-abstract-class")
+M("C10-static-members-count", "C10", "src/cppparser/cppStructType.cxx",
+  "    if (instance->_storage_class & CPPInstance::SC_static) {\n      // Static members don't count.\n      continue;\n    }\n\n    // If the data member is not destructible, no go.", "    // If the data member is not destructible, no go.",
+  expect="R10.1|is_destructible|M:static-skip")
+M("C10-benign-swap-loops", "C10", "src/cppparser/cppStructType.cxx",
+  "    if (destructor->_vis > min_vis) {\n      // Yes, but it's inaccessible.\n      return false;\n    }\n\n    if (destructor->_storage_class & CPPInstance::SC_deleted) {\n      // Yes, but it's explicitly been deleted.\n      return false;\n    }\n",
+  "    if (destructor->_storage_class & CPPInstance::SC_deleted) {\n      // Yes, but it's explicitly been deleted.\n      return false;\n    }\n\n    if (!(destructor->_vis <= min_vis)) {\n      // Yes, but it's inaccessible.\n      return false;\n    }\n",
+  benign=True)
